@@ -563,6 +563,7 @@ fn uv_wrappers(r: &mut Report) {
 // brute-force scan, its tolerance follows the frame (Tc).
 
 /// tolerance context: `s` = size scale of the entity (1 for the unit families), `m` = largest |coordinate| involved
+fn timing() -> bool { std::env::var("VERIF_C02_TIMING").is_ok() }
 #[derive(Clone, Copy)]
 struct Tc { s: f64, m: f64 }
 impl Tc {
@@ -677,6 +678,10 @@ fn fam_long_tiny() -> Vec<(f64, f64)> {
     x -= 4.0 * t; y += 3.0 * t; out.push((x, y));
     out
 }
+/// the neighbouring double away from zero (the smallest subnormal for 0)
+fn ulp_out(x: f64) -> f64 { if x == 0.0 { f64::from_bits(1) } else { f64::from_bits(x.to_bits() + 1) } }
+/// the neighbouring double towards zero
+fn ulp_in(x: f64) -> f64 { if x == 0.0 { -f64::from_bits(1) } else { f64::from_bits(x.to_bits() - 1) } }
 fn pow2_ge(x: f64) -> f64 { let mut p = 1.0 / 1024.0; while p < x { p *= 2.0; } p }
 /// queries for a polyline, unit frame: two grids reaching 1 beyond the box (one off the lattice), for up to `nv` spread-out
 /// vertices: the vertex itself, the midpoint of its edge, both displaced by +-fine obliquely; far points (2^20 .. 2^27)
@@ -726,6 +731,7 @@ fn curves_w5(r: &mut Report) {
     fams.push(Fam { name: format!("zigzag (k/2, k even ? 0 : 1 + (k%5)/4), k < {} (edge ids >= 2^16)", big), v: fam_zigzag(big), fine: 0.125, nv: 6, grid: false, all: false, ctol: 1.0 / P20 });
 
     for fam in fams.iter() {
+        let t0 = std::time::Instant::now();
         let qs = fam_queries(&fam.v, fam.fine, fam.nv, fam.grid);
         let frames = if fam.all { frames_all() } else if fam.v.len() > 5000 { vec![frames_all()[0]] } else { frames_few() };
         for (fi, fr) in frames.iter().enumerate() {
@@ -738,7 +744,12 @@ fn curves_w5(r: &mut Report) {
                 let tc = Tc { s: fr.s, m };
                 // 2D
                 let pts: Vec<Point2> = uv.iter().map(|p| Point2::new(p.0 * fr.s + fr.o[0], p.1 * fr.s + fr.o[1])).collect();
-                let q2: Vec<Point2> = qs.iter().map(|p| Point2::new(p.0 * fr.s + fr.o[0], p.1 * fr.s + fr.o[1])).collect();
+                let mut q2: Vec<Point2> = qs.iter().map(|p| Point2::new(p.0 * fr.s + fr.o[0], p.1 * fr.s + fr.o[1])).collect();
+                // one ulp either side of some vertices (in this frame)
+                for k in [0, 1, pts.len() / 2, pts.len() - 2, pts.len() - 1] {
+                    let a = pts[k];
+                    q2.extend([Point2::new(ulp_out(a.x), a.y), Point2::new(a.x, ulp_in(a.y)), Point2::new(ulp_in(a.x), ulp_out(a.y))]);
+                }
                 for fc in [false, true] {
                     if fc && fam.v.len() > 5000 { continue; }
                     if let Ok(c) = Curve2::from_points(&pts, fam.ctol * fr.s, fc) {
@@ -753,7 +764,11 @@ fn curves_w5(r: &mut Report) {
                 let nv = uv.len();
                 let zk = |k: usize| ((k * 7) % 4) as f64 * fam.fine;
                 let pts3: Vec<Point3> = (0..nv).map(|k| Point3::new(uv[k].0 * fr.s + fr.o[0], uv[k].1 * fr.s + fr.o[1], zk(k) * fr.s + fr.o[2])).collect();
-                let q3: Vec<Point3> = qs.iter().enumerate().map(|(k, p)| Point3::new(p.0 * fr.s + fr.o[0], p.1 * fr.s + fr.o[1], ((k % 5) as f64 - 1.0) * fam.fine * fr.s + fr.o[2])).collect();
+                let mut q3: Vec<Point3> = qs.iter().enumerate().map(|(k, p)| Point3::new(p.0 * fr.s + fr.o[0], p.1 * fr.s + fr.o[1], ((k % 5) as f64 - 1.0) * fam.fine * fr.s + fr.o[2])).collect();
+                for k in [0, 1, nv / 2, nv - 2, nv - 1] {
+                    let a = pts3[k];
+                    q3.extend([a, Point3::new(ulp_out(a.x), a.y, a.z), Point3::new(a.x, ulp_in(a.y), ulp_out(a.z)), Point3::new(ulp_in(a.x), ulp_out(a.y), ulp_in(a.z))]);
+                }
                 if let Ok(c) = Curve3::from_points(&pts3, fam.ctol * fr.s) {
                     let nm = format!("Curve3 {} lifted by z = ((7k)%4)*{:?} (tol {:?})", name, fam.fine, fam.ctol * fr.s);
                     let tc3 = Tc { s: fr.s, m: m.max(fr.o[2].abs() + 4.0 * fam.fine * fr.s) };
@@ -764,6 +779,7 @@ fn curves_w5(r: &mut Report) {
                 }
             }
         }
+        if timing() { eprintln!("C02 timing: {:.2} s, {} queries: {}", t0.elapsed().as_secs_f64(), qs.len(), fam.name); }
     }
 }
 
@@ -844,7 +860,7 @@ fn mesh_queries_w(v: &[V3], f: &[[u32; 3]], fine: f64, nv: usize, gridn: f64) ->
     out
 }
 
-struct MeshOpts { deviation: bool, transforms: bool }
+struct MeshOpts { deviation: bool, transforms: bool, maxq: usize }
 
 /// the mesh clauses of check_mesh with a frame-aware tolerance (all absolute quantities follow the scale tc0.s), more caps
 /// (just above / below the true distance), max_angle 0 / pi/2 / pi / 4, Some(identity) and a far Some(translation), index lists
@@ -861,8 +877,9 @@ fn check_mesh_w(r: &mut Report, name: &str, m: &Mesh, tc0: Tc, inside: &dyn Fn(&
     let tr = Iso3::from_parts(Translation3::new(1.0 * sc, -2.0 * sc, 3.0 * sc), UnitQuaternion::identity());
     let rot = Iso3::from_parts(Translation3::new(-1.0 * sc, 0.5 * sc, 2.0 * sc), UnitQuaternion::from_axis_angle(&Vector3::z_axis(), PI / 2.0));
     let far_t = Iso3::from_parts(Translation3::new(P20 * sc, -2.0 * P20 * sc, 0.5 * P20 * sc), UnitQuaternion::identity());
+    let pure_rot = Iso3::from_parts(Translation3::new(0.0, 0.0, 0.0), UnitQuaternion::from_axis_angle(&Vector3::x_axis(), PI / 2.0));
     let tfs: Vec<(&str, Option<&Iso3>)> = if opts.transforms {
-        vec![("None", None), ("Some(identity)", Some(&ident)), ("Some(translation (1,-2,3) * scale)", Some(&tr)), ("Some(Rz90 then +(-1,0.5,2) * scale)", Some(&rot)), ("Some(translation (2^20,-2^21,2^19) * scale)", Some(&far_t))]
+        vec![("None", None), ("Some(identity)", Some(&ident)), ("Some(translation (1,-2,3) * scale)", Some(&tr)), ("Some(Rz90 then +(-1,0.5,2) * scale)", Some(&rot)), ("Some(translation (2^20,-2^21,2^19) * scale)", Some(&far_t)), ("Some(quarter turn about x, no translation)", Some(&pure_rot))]
     } else { vec![("None", None), ("Some(translation (2^20,-2^21,2^19) * scale)", Some(&far_t))] };
     let angles = [0.0, 0.1, 0.5, 1.0, 1.5, PI / 2.0, 2.0, PI, 4.0];
     let mut used: Vec<Point3> = vec![];
@@ -996,19 +1013,23 @@ fn meshes_w5(r: &mut Report) {
     for (nx, ny) in [(4usize, 4usize), (7, 5), (23, 23), (46, 46)] {
         let (v, f) = gen_heightfield(nx, ny, 1.0, 1.0, 0.25, false, false);
         let small = nx * ny <= 64;
-        fams.push(MF { name: format!("height field {}x{} unit cells, z = ((3i+5j)%4)/4, alternating diagonals", nx, ny), v, f, fine: 0.125, nv: if small { 12 } else { 8 }, gridn: if small { 8.0 } else { 6.0 }, frames: if small { mesh_frames_all() } else { mesh_frames_few() }, solid: vec![false], inside: None, opts: MeshOpts { deviation: true, transforms: small } });
+        fams.push(MF { name: format!("height field {}x{} unit cells, z = ((3i+5j)%4)/4, alternating diagonals", nx, ny), v, f, fine: 0.125, nv: if small { 12 } else { 8 }, gridn: if small { 8.0 } else { 6.0 }, frames: if small { mesh_frames_all() } else { mesh_frames_few() }, solid: vec![false], inside: None, opts: MeshOpts { deviation: true, transforms: small, maxq: usize::MAX } });
+    }
+    {
+        let (v, f) = gen_heightfield(256, 256, 1.0, 1.0, 0.25, false, true);
+        fams.push(MF { name: "height field 256x256 unit cells (vertex ids >= 2^16, numbered in reverse)".into(), v, f, fine: 0.125, nv: 3, gridn: 2.0, frames: vec![fa[0]], solid: vec![false], inside: None, opts: MeshOpts { deviation: true, transforms: false, maxq: if super::thorough() { 400 } else { 40 } } });
     }
     let (v, f) = gen_heightfield(7, 5, 1.0, 1.0, 0.25, true, true);
-    fams.push(MF { name: "height field 7x5, every third face with the opposite winding, vertex ids reversed".into(), v, f, fine: 0.125, nv: 12, gridn: 8.0, frames: mesh_frames_few(), solid: vec![false], inside: None, opts: MeshOpts { deviation: true, transforms: true } });
+    fams.push(MF { name: "height field 7x5, every third face with the opposite winding, vertex ids reversed".into(), v, f, fine: 0.125, nv: 12, gridn: 8.0, frames: mesh_frames_few(), solid: vec![false], inside: None, opts: MeshOpts { deviation: true, transforms: true, maxq: usize::MAX } });
     let (v, f) = gen_heightfield(64, 1, 0.25, 0.25, 0.0625, false, false);
-    fams.push(MF { name: "long thin strip 64x1 cells of 0.25 x 0.25, z = ((3i+5j)%4)/16".into(), v, f, fine: 0.0625, nv: 12, gridn: 16.0, frames: mesh_frames_few(), solid: vec![false], inside: None, opts: MeshOpts { deviation: true, transforms: true } });
+    fams.push(MF { name: "long thin strip 64x1 cells of 0.25 x 0.25, z = ((3i+5j)%4)/16".into(), v, f, fine: 0.0625, nv: 12, gridn: 16.0, frames: mesh_frames_few(), solid: vec![false], inside: None, opts: MeshOpts { deviation: true, transforms: true, maxq: usize::MAX } });
     // two nested, nearly coincident sheets 2^-10 apart
     let (mut v, mut f) = gen_heightfield(6, 6, 1.0, 1.0, 0.25, false, false);
     let nv0 = v.len() as u32;
     let (v2, f2) = gen_heightfield(6, 6, 1.0, 1.0, 0.25, false, true);
     v.extend(v2.iter().map(|p| (p.0, p.1, p.2 + 1.0 / 1024.0)));
     f.extend(f2.iter().map(|t| [t[0] + nv0, t[1] + nv0, t[2] + nv0]));
-    fams.push(MF { name: "two height fields 6x6 lying 2^-10 apart (second one numbered in reverse)".into(), v, f, fine: 1.0 / 4096.0, nv: 16, gridn: 8.0, frames: mesh_frames_few(), solid: vec![false], inside: None, opts: MeshOpts { deviation: true, transforms: false } });
+    fams.push(MF { name: "two height fields 6x6 lying 2^-10 apart (second one numbered in reverse)".into(), v, f, fine: 1.0 / 4096.0, nv: 16, gridn: 8.0, frames: mesh_frames_few(), solid: vec![false], inside: None, opts: MeshOpts { deviation: true, transforms: false, maxq: usize::MAX } });
     // every face listed twice, vertices of the second copy duplicated
     let (mut v, mut f) = gen_heightfield(3, 2, 1.0, 1.0, 0.25, false, false);
     let nv0 = v.len() as u32;
@@ -1016,24 +1037,68 @@ fn meshes_w5(r: &mut Report) {
     v.extend(v.clone());
     f.extend(fcopy.iter().map(|t| [t[0] + nv0, t[1] + nv0, t[2] + nv0]));
     f.extend(fcopy.iter().cloned());
-    fams.push(MF { name: "height field 3x2 with every face listed three times (once through duplicated vertices)".into(), v, f, fine: 0.125, nv: 12, gridn: 8.0, frames: vec![fa[0]], solid: vec![false], inside: None, opts: MeshOpts { deviation: true, transforms: false } });
+    fams.push(MF { name: "height field 3x2 with every face listed three times (once through duplicated vertices)".into(), v, f, fine: 0.125, nv: 12, gridn: 8.0, frames: vec![fa[0]], solid: vec![false], inside: None, opts: MeshOpts { deviation: true, transforms: false, maxq: usize::MAX } });
     fn in_box234(q: &V3) -> bool { q.0 > 0.0 && q.0 < 2.0 && q.1 > 0.0 && q.1 < 3.0 && q.2 > 0.0 && q.2 < 4.0 }
     fn in_octa(q: &V3) -> bool { q.0.abs() + q.1.abs() + q.2.abs() < 2.0 }
     for k in [4usize, 16] {
         let (v, f) = gen_tess_box(2.0, 3.0, 4.0, k);
-        fams.push(MF { name: format!("box 2x3x4, every side a {}x{} grid with its own vertices", k, k), v, f, fine: 0.125, nv: 12, gridn: 8.0, frames: if k == 4 { mesh_frames_all() } else { mesh_frames_few() }, solid: vec![false, true], inside: Some(in_box234), opts: MeshOpts { deviation: true, transforms: k == 4 } });
+        fams.push(MF { name: format!("box 2x3x4, every side a {}x{} grid with its own vertices", k, k), v, f, fine: 0.125, nv: 12, gridn: 8.0, frames: if k == 4 { vec![fa[0], fa[1], fa[3], fa[4], fa[7]] } else { mesh_frames_few() }, solid: vec![false, true], inside: Some(in_box234), opts: MeshOpts { deviation: true, transforms: k == 4, maxq: usize::MAX } });
     }
     let (v, f) = gen_octahedron(2.0);
-    fams.push(MF { name: "octahedron |x|+|y|+|z| = 2 (a solid that does not fill its bounding box)".into(), v, f, fine: 0.125, nv: 8, gridn: 12.0, frames: mesh_frames_all(), solid: vec![false, true], inside: Some(in_octa), opts: MeshOpts { deviation: true, transforms: true } });
+    fams.push(MF { name: "octahedron |x|+|y|+|z| = 2 (a solid that does not fill its bounding box)".into(), v, f, fine: 0.125, nv: 8, gridn: 8.0, frames: vec![fa[0], fa[1], fa[3], fa[4], fa[6]], solid: vec![false, true], inside: Some(in_octa), opts: MeshOpts { deviation: true, transforms: true, maxq: usize::MAX } });
 
+    // SEQUENCES and other constructors: the same clauses after Mesh::transform (query, move the mesh, query again: the search
+    // structure must follow the vertices), after Mesh::append, and for a mesh built by new_with_options(merge, delete)
+    {
+        let t0 = std::time::Instant::now();
+        let (v, f) = gen_heightfield(7, 5, 1.0, 1.0, 0.25, false, false);
+        let qs = mesh_queries_w(&v, &f, 0.125, 8, 6.0);
+        let verts: Vec<Point3> = v.iter().map(|p| Point3::new(p.0, p.1, p.2)).collect();
+        let q0: Vec<Point3> = qs.iter().map(|p| Point3::new(p.0, p.1, p.2)).collect();
+        let opts = MeshOpts { deviation: true, transforms: false, maxq: usize::MAX };
+        let mut m = Mesh::new(verts.clone(), f.clone(), false);
+        let moves = [
+            ("translated by (2^10, -2^10, 3*2^10)", Iso3::from_parts(Translation3::new(P10, -P10, 3.0 * P10), UnitQuaternion::identity())),
+            ("then turned by a quarter about z and moved by (-1, 0.5, 2)", Iso3::from_parts(Translation3::new(-1.0, 0.5, 2.0), UnitQuaternion::from_axis_angle(&Vector3::z_axis(), PI / 2.0))),
+            ("then moved back by (0, 0, -2^10)", Iso3::from_parts(Translation3::new(0.0, 0.0, -P10), UnitQuaternion::identity())),
+        ];
+        let mut total = Iso3::identity();
+        let _ = m.surf_closest_to(&q0[0]);
+        for (mn, mv) in moves.iter() {
+            m.transform(mv);
+            total = mv * total;
+            let q: Vec<Point3> = q0.iter().map(|p| total * p).collect();
+            let mag = m.vertices().iter().fold(0.0f64, |a, p| a.max(p.coords.amax()));
+            check_mesh_w(r, &format!("height field 7x5 after Mesh::transform: {}", mn), &m, Tc { s: 1.0, m: mag }, &|_| false, &q, &opts);
+        }
+        // append: a second sheet 2 above, appended after the first one has been queried
+        let mut m = Mesh::new(verts.clone(), f.clone(), false);
+        let _ = m.surf_closest_to(&q0[0]);
+        let other = Mesh::new(verts.iter().map(|p| Point3::new(p.x, p.y, p.z + 2.0)).collect(), f.clone(), false);
+        m.append(&other).unwrap();
+        check_mesh_w(r, "height field 7x5 + Mesh::append of the same sheet 2 higher", &m, Tc { s: 1.0, m: 8.0 }, &|_| false, &q0, &opts);
+        // new_with_options: duplicates merged, degenerate faces deleted (face ids are those of the cleaned mesh)
+        let (bv, bf) = gen_tess_box(2.0, 3.0, 4.0, 4);
+        let bq: Vec<Point3> = mesh_queries_w(&bv, &bf, 0.125, 8, 6.0).iter().map(|p| Point3::new(p.0, p.1, p.2)).collect();
+        for solid in [false, true] {
+            if let Ok(m) = Mesh::new_with_options(bv.iter().map(|p| Point3::new(p.0, p.1, p.2)).collect(), bf.clone(), solid, true, true, None) {
+                check_mesh_w(r, "box 2x3x4 tessellated 4x4 per side through Mesh::new_with_options(merge_duplicates, delete_degenerate)", &m, Tc { s: 1.0, m: 4.0 }, &|q| q.x > 0.0 && q.x < 2.0 && q.y > 0.0 && q.y < 3.0 && q.z > 0.0 && q.z < 4.0, &bq, &opts);
+            } else {
+                r.check(false, "mesh: new_with_options builds the tessellated box", || "box 2x3x4, 4x4 per side".to_string());
+            }
+        }
+        if timing() { eprintln!("C02 timing: {:.2} s: sequences / constructors", t0.elapsed().as_secs_f64()); }
+    }
     for fam in fams.iter() {
+        let t0 = std::time::Instant::now();
         let qs = mesh_queries_w(&fam.v, &fam.f, fam.fine, fam.nv, fam.gridn);
         for fr in fam.frames.iter() {
             let ap = |p: &V3| Point3::new(p.0 * fr.s + fr.o[0], p.1 * fr.s + fr.o[1], p.2 * fr.s + fr.o[2]);
             let verts: Vec<Point3> = fam.v.iter().map(ap).collect();
             let mag = verts.iter().fold(0.0f64, |a, p| a.max(p.coords.amax()));
             let tc = Tc { s: fr.s, m: mag };
-            let q3: Vec<Point3> = qs.iter().map(ap).collect();
+            let stride = if fam.opts.maxq >= qs.len() { 1 } else { (qs.len() + fam.opts.maxq - 1) / fam.opts.maxq };
+            let q3: Vec<Point3> = qs.iter().step_by(stride.max(1)).map(ap).collect();
             let inv = |q: &Point3| ((q.x - fr.o[0]) / fr.s, (q.y - fr.o[1]) / fr.s, (q.z - fr.o[2]) / fr.s);
             for &solid in fam.solid.iter() {
                 let m = Mesh::new(verts.clone(), fam.f.clone(), solid);
@@ -1042,11 +1107,12 @@ fn meshes_w5(r: &mut Report) {
                 check_mesh_w(r, &nm, &m, tc, &|q| match ins { Some(g) => g(&inv(q)), None => false }, &q3, &fam.opts);
             }
         }
+        if timing() { eprintln!("C02 timing: {:.2} s, {} queries: {}", t0.elapsed().as_secs_f64(), qs.len(), fam.name); }
     }
 }
 
 pub fn run() -> Option<Report> {
-    let mut r = Report::new("curves: all 2..=3-vertex sequences over the 3x3 grid (2D, x force_closed) / over {0,1}^3 (3D), 7 + 5 fixed polylines with 4..=33 vertices (long thin, nested, nearly coincident, self-crossing, doubled back); meshes: box, box + disjoint box, box + nested box, two-triangle strip, two nearly coincident triangles, long thin quad, solid and non-solid; queries on half/quarter-integer grids reaching 1 beyond the bounding box plus far-outside points incl. EXTREMELY far ones (1e5 .. 1e8 units: 1e4 .. 1e8 x the size of the entity) (inside points for non-solid meshes only); caps 0.5*d, d+0.5, 2d+1, 0.25, 1.25, 5 (never within 1e-3 of the true distance d); max_angle in {0.1, 0.5, 1, 1.5, 2} rad with a 1e-6 rad undecided margin; transforms None / translation / quarter turn + translation; oracle = brute force over all segments / triangles, tolerance 1e-9 relative; NEAR-SURFACE: box 2x3x4 (solid and not), two-triangle strip, long thin quad, open roof x base points (every corner, two points inside every triangle edge, one inside every face) x 30 offset directions (6 axes, 24 of type (+-1,+-2,+-3)) x offsets 1e-7, 1e-6, 1e-5, 1e-4, 1e-3, 1e-2: closest point / distance / normal and Mesh::measure_point_deviation (ToPoint magnitude and sign, ToPlane) against the brute-force distance (below the documented 1e-6 epsilon the ToPoint magnitude is judged to 1e-6); UV WRAPPERS: Mesh::uv_with_tol on 3 UV-mapped meshes (open roof with the unfolded UV, two-triangle strip with uv = (x, y), box 2x3x4 with one chart per face) x integer / half-integer query grids reaching 1 beyond the bounding box plus far points (queries closer than 1e-6 skipped) x transform None / Some(translation) / Some(quarter turn + translation) / Some(0.7 rad about (1,2,3) + translation) / Some(1e-3 rad about x + translation) x caps {d+0.5, d/2, 0.25, 1.25} x max_angle {0.1, 0.5, 1, 1.5, 2}: nothing is returned beyond the cap, acceptance follows the angle of the offset of (transform * point) to the normal of the nearest face(s), uv / depth are those of a nearest non-rejecting face (brute force)");
+    let mut r = Report::new("curves: all 2..=3-vertex sequences over the 3x3 grid (2D, x force_closed) / over {0,1}^3 (3D), 7 + 5 fixed polylines with 4..=33 vertices (long thin, nested, nearly coincident, self-crossing, doubled back); meshes: box, box + disjoint box, box + nested box, two-triangle strip, two nearly coincident triangles, long thin quad, solid and non-solid; queries on half/quarter-integer grids reaching 1 beyond the bounding box plus far-outside points incl. EXTREMELY far ones (1e5 .. 1e8 units: 1e4 .. 1e8 x the size of the entity) (inside points for non-solid meshes only); caps 0.5*d, d+0.5, 2d+1, 0.25, 1.25, 5 (never within 1e-3 of the true distance d); max_angle in {0.1, 0.5, 1, 1.5, 2} rad with a 1e-6 rad undecided margin; transforms None / translation / quarter turn + translation; oracle = brute force over all segments / triangles, tolerance 1e-9 relative; NEAR-SURFACE: box 2x3x4 (solid and not), two-triangle strip, long thin quad, open roof x base points (every corner, two points inside every triangle edge, one inside every face) x 30 offset directions (6 axes, 24 of type (+-1,+-2,+-3)) x offsets 1e-7, 1e-6, 1e-5, 1e-4, 1e-3, 1e-2: closest point / distance / normal and Mesh::measure_point_deviation (ToPoint magnitude and sign, ToPlane) against the brute-force distance (below the documented 1e-6 epsilon the ToPoint magnitude is judged to 1e-6); UV WRAPPERS: Mesh::uv_with_tol on 3 UV-mapped meshes (open roof with the unfolded UV, two-triangle strip with uv = (x, y), box 2x3x4 with one chart per face) x integer / half-integer query grids reaching 1 beyond the bounding box plus far points (queries closer than 1e-6 skipped) x transform None / Some(translation) / Some(quarter turn + translation) / Some(0.7 rad about (1,2,3) + translation) / Some(1e-3 rad about x + translation) x caps {d+0.5, d/2, 0.25, 1.25} x max_angle {0.1, 0.5, 1, 1.5, 2}: nothing is returned beyond the cap, acceptance follows the angle of the offset of (transform * point) to the normal of the nearest face(s), uv / depth are those of a nearest non-rejecting face (brute force); WAVE 5 (parameter space): curves 2D and lifted to 3D: zigzags of 33 / 65 / 100 / 1000 / 4097 / 70001 vertices (thorough: 200001), square spirals of 40 / 200 / 1025 vertices (arms 0.5 apart), serpentines of 6 / 40 hairpin runs 2^-10 apart, a rectangle 8x3 walked from the middle of a side (explicitly closed / 0.25 gap / 1/16 gap with curve tolerance 1/8 = closed within tolerance only), long edges with irrational lengths next to edges of 5*2^-18, each in both numbering orders, force_closed both ways, in the frames: as is, shifted by 2^10 / 2^20 / 2^26, scaled by 2^-20 / 2^-30 / 2^10, scaled by 2^-20 at offset 1 (sizes >= 1000 in three frames only); queries: two grids reaching 1 beyond the box, vertices bit-equal and one ulp off, edge midpoints and quarter points, all displaced obliquely by 1/8 .. 2^-20, far points 2^20 .. 2^27 x scale; meshes: height fields 4x4 / 7x5 / 23x23 / 46x46 / 256x256 cells (32 .. 131072 faces, vertex ids >= 2^16; z = ((3i+5j)%4)/4), one with every third face wound the other way and reversed vertex ids, a long thin strip 64x1, two sheets 2^-10 apart, a height field with every face listed three times, a box 2x3x4 tessellated 4x4 / 16x16 per side with duplicated edge vertices (solid and not), an octahedron (solid and not), in the frames as is / shifted by 2^10, 2^20, 2^26 / scaled by 2^-20 (also at offset 1) / 2^10 (large meshes in three frames); queries: two grids reaching 1 beyond the box, corners / edge midpoints / an interior point of picked faces as is and displaced by +-fine along z, obliquely and in plane, far points; caps d+0.5, 2d+1, 1e9+8d, d/2, d(1+-1e-6), 0.25, 1.25, 5 (x scale); max_angle in {0, 0.1, 0.5, 1, 1.5, pi/2, 2, pi, 4}; transforms None / Some(identity) / translation / quarter turn + translation / translation by 2^20 x (1,-2,0.5) / quarter turn about x without translation; indices_in_tol on the whole list, the empty list, one point, two points, the same point twice, a list with repeated points; Mesh::measure_point_deviation (both modes) at every query; the 7x5 height field again after Mesh::transform three times in a row (far translation, quarter turn, back) and after Mesh::append of a second sheet, the tessellated box built by Mesh::new_with_options(merge_duplicates, delete_degenerate); tolerance 1e-9 x (scale + distance) + 16 ulp of the largest coordinate");
     curves(&mut r);
     meshes(&mut r);
     near_surface(&mut r);
